@@ -399,6 +399,177 @@ static const char *hist_str(vf_enum *e)
 	return b;
 }
 
+
+/* ------------------------------------------------------------------ two readers on two threads under a cooperative scheduler
+ * Scheduling points: every API boundary, every call of the library into the caller (stream read, progress callback).
+ * At each point the enumerator decides: continue (0) or hand over to the other thread (1 = a preemption). */
+#include <pthread.h>
+#include <semaphore.h>
+
+typedef struct {
+	int id, arc, prog;
+	uint64_t log[256];
+	int nlog;
+	int free_running;
+	unsigned reads;
+} treader;
+
+static sem_t SEM[2];
+static volatile int ALIVE[2];
+static vf_enum *SCHED;
+static int SWITCHES;
+
+static void sched_point(treader *t)
+{
+	int me = t->id, other = 1 - me;
+	if (t->free_running || !SCHED) return;
+	if (!ALIVE[other]) return;
+	if (vf_choose(SCHED, 2)) {
+		++SWITCHES;
+		sem_post(&SEM[other]);
+		sem_wait(&SEM[me]);
+	}
+}
+
+static int sched_answer(void *u, size_t asked, size_t avail)
+{
+	treader *t = (treader *) u;
+	(void) asked;
+	/* bit readers ask for four bytes at a time: every 8th source call is a scheduling point */
+	if ((++t->reads & 7) == 0) sched_point(t);
+	return (int) avail;
+}
+
+static void sched_progress(unsigned int a, unsigned int b, void *u)
+{
+	(void) a; (void) b;
+	sched_point((treader *) u);
+}
+
+static void tlog(treader *t, uint64_t v) { if (t->nlog < 256) t->log[t->nlog++] = v; }
+
+/* programs: 0 check every entry, 1 extract every entry (explicit names), 2 read every entry in 7-byte pieces,
+ * 3 alternate check / extract with progress callbacks */
+static void reader_body(treader *t)
+{
+	const ab_arc *a = &ARCS[t->arc];
+	mem_stream ms;
+	LHAInputStream *st = mem_open(&ms, a->buf, a->n, t->id);       /* one reader with a skip callback, one without */
+	LHAReader *rd;
+	LHAFileHeader *h;
+	int k = 0;
+	char name[64];
+	static __thread uint8_t buf[512];
+	ms.answer = sched_answer; ms.answer_u = t;
+	rd = lha_reader_new(st);
+	for (;;) {
+		sched_point(t);
+		h = lha_reader_next_file(rd);
+		tlog(t, header_hash(h));
+		if (!h || k > 40) break;
+		snprintf(name, sizeof name, "T%d-%d-%d", t->id, t->arc, k);
+		sched_point(t);
+		if (t->prog == 0 || (t->prog == 3 && (k & 1) == 0)) tlog(t, 100 + (uint64_t) lha_reader_check(rd, t->prog == 3 ? sched_progress : NULL, t));
+		else if (t->prog == 1 || t->prog == 3) {
+			int v = lha_reader_extract(rd, name, t->prog == 3 ? sched_progress : NULL, t);
+			struct stat sb;
+			tlog(t, 200 + (uint64_t) v);
+			if (v && lstat(name, &sb) == 0 && S_ISREG(sb.st_mode)) {
+				/* content of what was written */
+				FILE *f = __real_fopen(name, "rb");
+				uint64_t bh = 0;
+				size_t n;
+				if (f) { static __thread uint8_t fb[4096]; while ((n = fread(fb, 1, sizeof fb, f)) > 0) bh = bytes_hash(fb, n, bh); __real_fclose(f); }
+				tlog(t, bh);
+			}
+		} else {
+			uint64_t bh = 0;
+			size_t got;
+			while ((got = lha_reader_read(rd, buf, 7)) > 0) { bh = bytes_hash(buf, got, bh); if (got > 7) break; }
+			tlog(t, bh);
+		}
+		++k;
+	}
+	lha_reader_free(rd);
+	lha_input_stream_free(st);
+}
+
+static void *thread_main(void *u)
+{
+	treader *t = (treader *) u;
+	int me = t->id;
+	if (!t->free_running) sem_wait(&SEM[me]);
+	reader_body(t);
+	ALIVE[me] = 0;
+	if (!t->free_running && ALIVE[1 - me]) sem_post(&SEM[1 - me]);
+	return NULL;
+}
+
+static void space_threads(void)
+{
+	int bound = atoi(vf_extra("preemptions", "2"));
+	int free_running = atoi(vf_extra("free", "0"));
+	static const int arcs[4] = { 0, 1, 3, 4 };
+	int pa, pb;
+	for (pa = 0; pa < 16; ++pa)
+	for (pb = pa; pb < 16; ++pb) {
+		treader solo[2], run[2];
+		vf_enum e;
+		long schedules = 0, maxsw = 0;
+		int i;
+		int stride = atoi(vf_extra("stride", "1"));
+		int need_fs = (pa % 4 == 1 || pa % 4 == 3 || pb % 4 == 1 || pb % 4 == 3);
+		if (((pa * 16 + pb) % stride) != 0) continue;
+		if (!vf_case("reader A: archive %d program %d ; reader B: archive %d program %d ; all schedules with <= %d preemptions", arcs[pa / 4], pa % 4, arcs[pb / 4], pb % 4, bound)) continue;
+		/* solo runs, each in a fresh sandbox */
+		for (i = 0; i < 2; ++i) {
+			memset(&solo[i], 0, sizeof solo[i]);
+			solo[i].id = i; solo[i].arc = arcs[(i ? pb : pa) / 4]; solo[i].prog = (i ? pb : pa) % 4; solo[i].free_running = 1;
+			sandbox_enter();
+			reader_body(&solo[i]);
+			sandbox_leave();
+		}
+		vf_enum_init(&e, bound);
+		do {
+			pthread_t th[2];
+			if (need_fs) sandbox_enter();
+			vf_enum_begin(&e);
+			SCHED = free_running ? NULL : &e;
+			SWITCHES = 0;
+			for (i = 0; i < 2; ++i) {
+				memset(&run[i], 0, sizeof run[i]);
+				run[i].id = i; run[i].arc = solo[i].arc; run[i].prog = solo[i].prog; run[i].free_running = free_running;
+				sem_init(&SEM[i], 0, 0);
+				ALIVE[i] = 1;
+			}
+			for (i = 0; i < 2; ++i) pthread_create(&th[i], NULL, thread_main, &run[i]);
+			if (!free_running) sem_post(&SEM[0]);
+			for (i = 0; i < 2; ++i) pthread_join(th[i], NULL);
+			if (need_fs) sandbox_leave();
+			++schedules;
+			if (SWITCHES > maxsw) maxsw = SWITCHES;
+			for (i = 0; i < 2; ++i) {
+				vf_step(vf_hash(run[i].log, sizeof(uint64_t) * (size_t) run[i].nlog, (uint64_t) i));
+				if (run[i].nlog != solo[i].nlog || memcmp(run[i].log, solo[i].log, sizeof(uint64_t) * (size_t) run[i].nlog)) {
+					int d = 0;
+					while (d < run[i].nlog && d < solo[i].nlog && run[i].log[d] == solo[i].log[d]) ++d;
+					{
+						char sw[200]; int q, o = 0;
+						sw[0] = 0;
+						for (q = 0; q < e.len && o < 180; ++q) if (e.choice[q]) o += snprintf(sw + o, sizeof sw - o, "%d ", q);
+						vf_viol("c15-reader-interference", "reader %c observes something else than in its solo run at observation %d (hand-overs at scheduling points %sof %d)", 'A' + i, d, sw, e.len);
+					}
+				}
+			}
+			if (e.diverged) { printf("HARNESS schedule replay diverged\n"); break; }
+		} while (!free_running && vf_enum_next(&e) && !VF.stop && schedules < 2000000 && VF.violations < 20);
+		printf("NOTE pair%d.%d=schedules:%ld,max-switches:%ld\n", pa, pb, schedules, maxsw);
+		if (maxsw > 0 || free_running) vf_nontrivial(vf_mix(pa * 16 + pb, bound));
+		vf_outcome(vf_mix(schedules, pa * 16 + pb));
+		VF.evaluations += schedules - 1;
+	}
+}
+
 static void set_choices(vf_enum *e, long long idx, int full)
 {
 	int k;
@@ -473,6 +644,8 @@ int main(int argc, char **argv)
 			vf_nontrivial(vf_mix(ai * 4 + policy, vf_hash(e.choice, sizeof(int) * (size_t) e.len, 0)));
 			vf_outcome(vf_mix(VF.transitions, ai));
 		}
+	} else if (!strcmp(VF.space, "threads")) {
+		space_threads();
 	} else {
 		fprintf(stderr, "unknown space %s\n", VF.space);
 		return 2;
